@@ -417,8 +417,8 @@ def run_pure(ck):
     groups = {}
     groups["exhaustive-small"] = exhaustive_cases([0, 1, 2], 3, 4, 3) if quick else \
         exhaustive_cases([0, 1, 2], 3, 4, 3) + exhaustive_cases([0, 1, 2, 3], 4, 3, 2)
-    groups["random"] = [random_case(rng) for _ in range(6000 if quick else 120000)]
-    fams = [throw_family(rng) for _ in range(250 if quick else 8000)]
+    groups["random"] = [random_case(rng) for _ in range(6000 if quick else 300000)]
+    fams = [throw_family(rng) for _ in range(250 if quick else 20000)]
     groups["throw-at-every-position"] = [l for f in fams for l in f]
     groups["arbitrary-data"] = []
     for _ in range(300 if quick else 10000):       # not heaps: correspondence only
@@ -801,8 +801,10 @@ def random_scenario(rng, small=False):
     return init, ths
 
 
-def run_scenario(exe, init, ths, sched, timeout=300):
+def run_scenario(exe, init, ths, sched, timeout=120):
     rc, out, err = sh([exe], input=scen_text(init, ths, sched), timeout=timeout)
+    if rc == -9:
+        err = "TIMEOUT after %ds (the harness hangs outside the controlled scheduler) " % timeout + err
     return rc, parse_runs(out), err
 
 
@@ -832,7 +834,7 @@ def run_shim(ck):
         dist[(len(ths), "batches=%d" % nb)] += 1
 
     # random schedules on random scenarios (several seeds and two preemption densities per scenario)
-    for _ in range(150 if quick else 1500):
+    for _ in range(150 if quick else 3000):
         if len(bad_mon) > 25:
             break                    # badly broken tree: enough material for the failing-input search
         init, ths = random_scenario(rng)
@@ -844,7 +846,7 @@ def run_shim(ck):
             if rc not in (0, 3):
                 bad_mon.append((init, ths, "random %d %d" % (seed0 + len(runs), stay), "harness crashed (memory error) rc=%d %s" % (rc, err.strip()[-200:])))
     # bounded-preemption DFS on small scenarios
-    for _ in range(12 if quick else 60):
+    for _ in range(12 if quick else 120):
         if len(bad_mon) > 25:
             break
         init, ths = random_scenario(rng, small=True)
@@ -992,6 +994,7 @@ def run(ck):
         "the rest of the batch gets no status); all theorems about results assume no such pop (NoThrowingPop / popThrows = false); "
         "cpq_pop_throw_not_isolated and aggregator_pop_throw_witness are the closed negation witnesses; known finding `pop-assignment-throw-locks-queue`",
         "NOT modelled: exceptions from element moves inside heapify/reheap (types whose move constructor/assignment can throw), allocator failure",
+        "not proved in Lean (checked by the E-SHIM trace replay only): the handler steps of Agg compute handleIdx of the grabbed batch; the next fields agree with the lists plist/rem/dfr",
         "the linearization of a whole concurrent history is the concatenation of per-batch orders (cpq_batch_linearizable) in batch order, justified by "
         "aggregator_serial_exactly_once; that composition step is stated in prose (Props/C13.lean header), not as a Lean theorem over histories",
     ]
